@@ -54,7 +54,17 @@ pub fn msan_safe_code_artefact(stderr: &str) -> Option<String> {
         path.starts_with("/repo/crates/").then(|| path.to_string())
     };
     let lines: Vec<&str> = stderr.lines().collect();
-    let use_frame = lines.iter().find(|l| l.trim_start().starts_with("#0 "))?;
+    let use_0 = lines.iter().position(|l| l.trim_start().starts_with("#0 "))?;
+    // frame #0 may carry a library file when the instruction at the fault address was inlined from there (an atomic
+    // load, an iterator adaptor) into one of the decoder's own functions: then the decoder's function is the use site and
+    // its source file is that of the next frame in /repo
+    let use_frame = if file_of(lines[use_0]).is_some() {
+        &lines[use_0]
+    } else if lines[use_0].contains(" in <jxl_") || lines[use_0].contains(" in jxl_") {
+        lines[use_0 + 1..].iter().take_while(|l| l.trim_start().starts_with('#')).find(|l| file_of(l).is_some())?
+    } else {
+        return None;
+    };
     let origin_at = lines.iter().position(|l| l.contains("Uninitialized value was created by"))?;
     if !lines[origin_at].contains("in the stack frame") {
         return None;
